@@ -613,6 +613,20 @@ def api_cases(tier, rng, budget=1):
         if ka == "nd" and kb == "nd":
             ka = "coo"
         add(rng.choice(["matmul", "at"]), rand_spec(rng, ba + [m, n]), ka, rand_spec(rng, bb + [n, p]), kb, tag="matmul_batch", follow=False)
+    # ---- matmul fast paths: every leading extent of a (incl. its row extent) is 1 / every batch extent of b is 1,
+    #      with a.ndim <, =, > b.ndim (the squeezed fast paths are only right on one side of that comparison)
+    for (nda, ndb) in [(4, 3), (3, 4), (3, 3), (4, 4), (4, 3), (3, 4)] + ([] if quick else [(4, 3), (3, 4)] * 6):
+        n, p, m = rng.choice([1, 2, 3]), rng.choice([1, 2, 3]), rng.choice([1, 2, 3])
+        kinds = ["coo", "gcxs", "nd"]
+        ka, kb = rng.choice(kinds), rng.choice(kinds)
+        if ka == "nd" and kb == "nd":
+            ka = "coo"
+        # a squeezable to a vector
+        add(rng.choice(["matmul", "at"]), rand_spec(rng, [1] * (nda - 1) + [n], 0.9), ka,
+            rand_spec(rng, [rng.choice([1, 2, 3]) for _ in range(ndb - 2)] + [n, p], 0.7), kb, tag="matmul_squeeze_a", follow=False)
+        # b squeezable to a matrix
+        add(rng.choice(["matmul", "at"]), rand_spec(rng, [rng.choice([1, 2, 3]) for _ in range(nda - 2)] + [m, n], 0.7), ka,
+            rand_spec(rng, [1] * (ndb - 2) + [n, p], 0.9), kb, tag="matmul_squeeze_b", follow=False)
     # ---- einsum
     subs2 = [("ij,jk->ik", 2, 2), ("ij,kj->ik", 2, 2), ("ij,ij->", 2, 2), ("ij,ij->ij", 2, 2), ("i,i->", 1, 1), ("i,j->ij", 1, 1),
              ("ijk,kl->ijl", 3, 2), ("ij,jk", 2, 2), ("ii,i->i", 2, 1), ("ijk,jik->", 3, 3), ("...j,j->...", 3, 1), ("ij,j->i", 2, 1),
